@@ -409,7 +409,49 @@ func (r *foRun) oracleC09() {
 
 // --- C05: build economy -------------------------------------------------------------------------------
 
+// genC05DefaultBackend: the Failover builds its own backend and failure cache from BackendConfig
+// (with eviction settings, as an application would configure them); several keys fail, the
+// clock passes a janitor tick of the failure cache, and the keys are asked for again inside
+// FailedUpdateTTL.
+func genC05DefaultBackend(r *rand.Rand) *Scenario {
+	sc := genFOBase(r, foShape{minClients: 1, maxClients: 2, maxKeys: 1, maxOps: 1})
+	fo := sc.FO
+	fo.DefaultBackend = true
+	fo.Faults = FOFaults{}
+	fo.Cfg.FailedUpdateTTLNs = pick(r, 600*sec, 180*sec, 3600*sec)
+	fo.Cfg.MaxStalenessNs = 0
+	fo.BackendCfg = BEConfig{CountSoftLimit: uint64(1 + r.IntN(3)), EvictFraction: pick(r, 0.3, 0.5, 1), Strategy: r.IntN(3)}
+	fo.Keys, fo.Init = nil, nil
+
+	nk := 3 + r.IntN(5)
+	for i := 0; i < nk; i++ {
+		fo.Keys = append(fo.Keys, fmt.Sprintf("k%d", i))
+		fo.Init = append(fo.Init, FOInit{Key: i, State: "absent", FailAgeNs: -1})
+	}
+
+	var ops []FOOp
+
+	for i := 0; i < nk; i++ {
+		ops = append(ops, FOOp{Kind: "get", Key: i, BuildFail: true})
+	}
+
+	ops = append(ops, FOOp{Kind: "sleep", SleepNs: pick(r, 61*sec, 75*sec, 125*sec)})
+
+	for i := 0; i < nk; i++ {
+		ops = append(ops, FOOp{Kind: "get", Key: i, BuildFail: chance(r, 0.5)})
+	}
+
+	fo.Clients = [][]FOOp{ops}
+	sc.Sched = genSched(r, 200)
+
+	return sc
+}
+
 func genC05(r *rand.Rand, run int, _ string) *Scenario {
+	if run%10 == 9 {
+		return genC05DefaultBackend(r)
+	}
+
 	if run%2 == 0 {
 		// Run A: SyncRead burst on one key.
 		sc := genFOBase(r, foShape{minClients: 2, maxClients: 8, maxKeys: 1, maxOps: 1})
@@ -566,7 +608,7 @@ func (r *foRun) oracleC05() {
 	}
 
 	// R4: FailedUpdateTTL=-1 -> failures are not cached (single-client sequences only).
-	if cfg.FailedUpdateTTLNs == -1 && len(r.sc.Clients) == 1 {
+	if cfg.FailedUpdateTTLNs == -1 && len(r.sc.Clients) == 1 && !r.sc.DefaultBackend {
 		for i, o := range r.ops {
 			if i == 0 || !o.done {
 				continue
@@ -601,7 +643,47 @@ func (r *foRun) oracleC05() {
 
 // --- C06: TTL and context propagation ------------------------------------------------------------------
 
-func genC06(r *rand.Rand, _ int, _ string) *Scenario {
+// genC06Shared: several goroutines issue Gets under ONE request context carrying a TTL cell; nobody
+// asks for another TTL, so every built value must be stored with exactly that TTL and the cell must
+// still hold it afterwards - whatever temporary re-stores of stale values happen meanwhile.
+func genC06Shared(r *rand.Rand) *Scenario {
+	sc := genFOBase(r, foShape{minClients: 2, maxClients: 4, maxKeys: 3, maxOps: 3, sleeps: false, skipRead: true})
+	fo := sc.FO
+	fo.BackendJitter = -1
+	fo.Faults = FOFaults{}
+	fo.SharedCtxTTLNs = pick(r, 3600*sec, 7*sec, 24*3600*sec)
+
+	for i := range fo.Init {
+		fo.Init[i].FailAgeNs = -1
+
+		if chance(r, 0.6) {
+			fo.Init[i].State, fo.Init[i].AgeNs = "stale", ms
+		}
+	}
+
+	for c := range fo.Clients {
+		for i := range fo.Clients[c] {
+			op := &fo.Clients[c][i]
+			if op.Kind != "get" {
+				continue
+			}
+
+			op.UseShared, op.HasCtxTTL, op.CtxTTLNs = true, true, fo.SharedCtxTTLNs
+			op.BuildTTLs, op.Cancel, op.BuildFail = nil, "", false
+			op.BuildSleepNs = pick(r, int64(0), 0, ms)
+		}
+	}
+
+	sc.NoFastPath = chance(r, 0.3)
+
+	return sc
+}
+
+func genC06(r *rand.Rand, run int, _ string) *Scenario {
+	if run%6 == 5 {
+		return genC06Shared(r)
+	}
+
 	sc := genFOBase(r, foShape{minClients: 1, maxClients: 3, maxKeys: 2, maxOps: 3, sleeps: true, skipRead: true, ctxTTL: true, callerTricks: false})
 	fo := sc.FO
 	fo.BackendJitter = -1
@@ -721,6 +803,15 @@ func (r *foRun) oracleC06() {
 			case !b.markerVisible:
 				out.violate("C06.R4", "bg-ctx-values-lost", "%s: background build context does not expose the caller's context values", b.op.id())
 			}
+		}
+	}
+
+	// shared request context: the cell must still hold the TTL the application put there
+	if r.sharedCtx != nil {
+		out.probe("shared_request_context")
+
+		if got := int64(cache.TTL(r.sharedCtx)); got != r.sc.SharedCtxTTLNs {
+			out.violate("C06.R3", "shared-ctx-ttl-changed", "several Gets shared one request context with TTL %v; afterwards the context carries TTL %v", dur(r.sc.SharedCtxTTLNs), dur(got))
 		}
 	}
 
